@@ -1075,13 +1075,21 @@ impl Prop for C04Calls {
         "C04"
     }
     fn rule(&self) -> &'static str {
-        "plans (nested batches with custom / MultiDispatcher controllers, thread-local systems incl. inside batches) x a generated sequence of 1..8 calls drawn from dispatch / dispatch_par / dispatch_seq / dispatch_thread_local on ONE dispatcher x pool size 1..16 x per-system delays; oracle after every call: counter of every ordinary system == number of calls so far that run ordinary systems, every top-level thread-local counter == number of dispatch + dispatch_thread_local calls, inner systems == enclosing batch runs x its dispatch count, nothing is left borrowed; non-trivial = >= 3 calls of >= 2 different kinds on a plan with >= 2 stages or a batch; distinct = case hash"
+        "plans (nested batches with custom / MultiDispatcher controllers, thread-local systems incl. inside batches) x a generated sequence of 1..8 calls drawn from dispatch / dispatch_par / dispatch_seq / dispatch_thread_local / RunNow::run_now on ONE dispatcher x pool size 1..16 x per-system delays; oracle after every call: counter of every ordinary system == number of calls so far that run ordinary systems, every top-level thread-local counter == number of dispatch + dispatch_thread_local calls, inner systems == enclosing batch runs x its dispatch count, nothing is left borrowed; non-trivial = >= 3 calls of >= 2 different kinds on a plan with >= 2 stages or a batch; distinct = case hash"
     }
     fn gen(&self, src: &mut Src) -> C04CallsCase {
         let threads = [1u8, 2, 3, 4, 8, 16][src.pick(6)];
         let n = 1 + src.pick(8);
         let calls = (0..n)
-            .map(|_| [Entry::Dispatch, Entry::Par, Entry::Seq, Entry::TlOnly, Entry::Dispatch][src.pick(5)])
+            .map(|_| {
+                [
+                    Entry::Dispatch,
+                    Entry::Par,
+                    Entry::Seq,
+                    Entry::TlOnly,
+                    Entry::RunNowTrait,
+                ][src.pick(5)]
+            })
             .collect();
         let plan = gen_plan(src, &self.cfg);
         let jitter = (0..40).map(|_| src.raw()).collect();
